@@ -246,6 +246,19 @@ func genWorkload(n int) []*call {
 		if rng.Intn(6) == 0 {
 			text = mutate(text)
 		}
+		if rng.Intn(4) == 0 {
+			// a shadow call: the same text / list with its letter case folded (shares cache keys with the original in
+			// any implementation that memoises on folded text)
+			f := strings.ToLower
+			if rng.Intn(2) == 0 {
+				f = strings.ToUpper
+			}
+			sl := make([]string, len(c.allowed))
+			for j, a := range c.allowed {
+				sl[j] = f(a)
+			}
+			w = append(w, &call{fn: rng.Intn(2), expr: f(text), list: sl}, &call{fn: 2, list: append([]string{f(text)}, sl...)})
+		}
 		switch rng.Intn(3) {
 		case 0:
 			w = append(w, &call{fn: 0, expr: text, list: c.allowed})
